@@ -414,7 +414,7 @@ def plan_c12(tier, seed):
 def plan_c13(tier, seed):
     rs = np.random.RandomState(seed + 13)
     if tier == "quick":
-        shapes, sizes, max_dim, rank_stride, stride = [(), (2,), (2, 2)], [1, 2, 3], 6, 6, 6
+        shapes, sizes, max_dim, rank_stride, stride = [(), (2,), (2, 2)], [1, 2, 3], 6, 6, 8
     else:
         shapes, sizes, max_dim, rank_stride, stride = [(), (1,), (2,), (3,), (2, 2)], [1, 2, 3], 7, 3, 10
     sigs = list(G.signatures(shapes, sizes, max_reals=3, max_ints=2, max_dim=max_dim))
@@ -437,7 +437,7 @@ def plan_c14(tier, seed):
     rs = np.random.RandomState(seed + 14)
     units = []
     if tier == "quick":
-        shapes, sizes, max_dim, sig_stride, reps, delta_reps = [(), (2,), (2, 2)], [1, 2, 3], 6, 24, 2, 1
+        shapes, sizes, max_dim, sig_stride, reps, delta_reps = [(), (2,), (2, 2)], [1, 2, 3], 6, 36, 1, 1
     else:
         shapes, sizes, max_dim, sig_stride, reps, delta_reps = [(), (1,), (2,), (3,), (2, 2)], [1, 2, 3], 7, 28, 24, 8
     sigs = list(G.signatures(shapes, sizes, max_reals=3, max_ints=2, max_dim=max_dim))
